@@ -295,7 +295,7 @@ PROPS['C06'] = dict(
          'must not panic, the term must be represented in exactly the queried invocation (lookup_rec_expr eq query), its '
          'independently recomputed cost (cost_rec) must equal the reported best cost, and its free slots must be query arguments or '
          'fresh slots. non-trivial = some class holds an e-node with a redundant slot, or a non-trivial group; distinct = by hash of the case line',
-    trusted_base=EG_TRUST + ['Extractor::new (priority-queue loop) is not modelled: its table is compared with the checked Lean table per run'],
+    trusted_base=EG_TRUST + ['Extractor::new (priority-queue loop) is modelled as Extract.loop / Extract.dijkstra (heap = list with cheapest-first selection, usages(i) = every stored e-node mentioning i, the e-node kept next to a cost dropped) and proved to end with an accepted table for every state with distinct class ids (dijkstra_accepted); the tie to the code is the per-run comparison of get_best_cost of every live class with that table; the tie-break among equally cheap queue entries and Extractor::extract (slot level) are not modelled'],
     assumptions=COMMON_ASSUME,
     pending_theorems=[],
 )
